@@ -535,6 +535,13 @@ def lexical_cases(run: Run, impl: Impl, cases: list) -> None:
                 run.disagree(Disagreement(case, impl=iv, model=mvalid[0], what='is_valid-model', site=f'{t}.validate'))
             # spec sanity: spec of is_valid == spec ctor ok (same definition, printed twice)
         else:
+            if t in XSD_REF:
+                want = 'ok' if xsd_ref_ok(t, s) else 'ERR:V'
+                got = 'ok' if kind == 'ok' else val
+                st.count(f'lex:xsd-reference-regex:{t}')
+                if got != want:
+                    run.disagree(Disagreement(case, impl=got, spec=want, what='ctor-vs-xsd-reference-regex',
+                                              site=f'datatypes {t}', tags=tags_w + (['F10u'] if zero_foreign_components(t, s) else [])))
             # is_valid agrees with the constructor (path against path)
             if t not in ('string', 'untypedAtomic') and not qname_ns_error:
                 iv = impl.is_valid(t, s)
@@ -638,6 +645,51 @@ def pattern_matches(t: str, s: str) -> bool:
     import re
     p = PATTERN_TEXT.get(t)
     return p is not None and re.match(p, s) is not None
+
+
+# XSD 1.1 Part 2 regular expressions of types that have no Lean recogniser but a complete lexical definition
+# by a regular expression in the recommendation (3.3.6 duration, 3.3.8 time, 3.3.12-14 gMonthDay/gDay/gMonth,
+# 3.4.3 language, 3.4.26/27 yearMonthDuration / dayTimeDuration): reference recognisers of the harness
+# (model validation by observation, not proof)
+_TZ = r'(Z|(\+|-)((0[0-9]|1[0-3]):[0-5][0-9]|14:00))?'
+_DT = r'(T(([0-9]+H)([0-9]+M)?([0-9]+(\.[0-9]+)?S)?|([0-9]+M)([0-9]+(\.[0-9]+)?S)?|([0-9]+(\.[0-9]+)?S)))'
+XSD_REF = {
+    'language': r'[a-zA-Z]{1,8}(-[a-zA-Z0-9]{1,8})*',
+    'gDay': r'---(0[1-9]|[12][0-9]|3[01])' + _TZ,
+    'gMonth': r'--(0[1-9]|1[0-2])' + _TZ,
+    'gMonthDay': r'--(0[1-9]|1[0-2])-(0[1-9]|[12][0-9]|3[01])' + _TZ,
+    'time': r'(([01][0-9]|2[0-3]):[0-5][0-9]:[0-5][0-9](\.[0-9]+)?|(24:00:00(\.0+)?))' + _TZ,
+    'duration': r'-?P((([0-9]+Y([0-9]+M)?([0-9]+D)?|([0-9]+M)([0-9]+D)?|([0-9]+D))' + _DT + r'?)|' + _DT + r')',
+    'yearMonthDuration': r'-?P((([0-9]+Y)([0-9]+M)?)|([0-9]+M))',
+    'dayTimeDuration': r'-?P(([0-9]+D)' + _DT + r'?|' + _DT + r')',
+}
+
+
+def xsd_ref_ok(t: str, s: str) -> bool:
+    import re
+    x = xsd_collapse(s)
+    if not re.fullmatch(XSD_REF[t], x):
+        return False
+    if t == 'gMonthDay':     # 3.3.12: the day must exist in the month (February: up to 29)
+        return int(x[5:7]) <= [0, 31, 29, 31, 30, 31, 30, 31, 31, 30, 31, 30, 31][int(x[2:4])]
+    return True
+
+
+def zero_foreign_components(t: str, s: str) -> bool:
+    """trigger of F10u: a derived duration type, the string is an xs:duration literal outside the derived
+    type's lexical space, and every component the derived type may not have is written with value zero"""
+    import re
+    if t not in ('yearMonthDuration', 'dayTimeDuration'):
+        return False
+    x = xsd_collapse(s)
+    if not re.fullmatch(XSD_REF['duration'], x) or re.fullmatch(XSD_REF[t], x):
+        return False
+    m = re.fullmatch(r'-?P(?:([0-9]+)Y)?(?:([0-9]+)M)?(?:([0-9]+)D)?(?:T(?:([0-9]+)H)?(?:([0-9]+)M)?(?:([0-9.]+)S)?)?', x)
+    if m is None:
+        return False
+    y, mo, d, h, mi, sec = m.groups()
+    foreign = [d, h, mi, sec] if t == 'yearMonthDuration' else [y, mo]
+    return all(v is None or float(v) == 0 for v in foreign)
 
 
 def expected_code(t: str, ctor_err: str) -> str:
@@ -991,6 +1043,11 @@ def cast_cases(run: Run, impl: Impl) -> None:
             st.count(f'cast:{kind}->{t if t not in INT_TYPES else "integer-family"}')
             tags = (['F10w'] if 'w' in fl and kind in ('str', 'untyped') else []) + (['F10b'] if 'd' in fl else []) + \
                    (['F10o'] if 'o' in fl else [])
+            if 'r' in fl:
+                run.disagree(Disagreement(case, impl=repr(val), model='pyRepr differs', what='pyRepr-model',
+                                          site='CPython repr(float) vs EPV.LexLemmas.pyRepr'))
+            if kind == 'dbl':
+                st.count('cast:dbl:repr-model-checked')
             results = {}
             for pn in ('2', '31'):
                 results[f'cast{pn}'] = impl.xpath(pn, v, f'$s cast as xs:{t}', {'s': val})
